@@ -229,9 +229,9 @@ fn c38_apy_exact_after_60_weeks_777_seconds_w16() {
     apy_is_exact_average(start, t, &g);
 }
 
-//@ prop=C38 tier=thorough kind=hold
+//@ prop=C38 tier=experimental kind=hold
 //@ enc=compute_time_weighted_apy (via verif_hooks)
-//@ bound=elapsed time T fixed to 2 weeks and 3 days; all 53 gradients arbitrary in [0, min(2^68 - 1, APY_MAX)]; stake start fixed to 0; unwind 54
+//@ bound=elapsed time T fixed to 2 weeks and 3 days; all 53 gradients arbitrary in [0, min(2^68 - 1, APY_MAX)] (full width); stake start fixed to 0; unwind 54. Does not finish (> 5000 s)
 //@ stubs=none
 #[kani::proof]
 #[kani::unwind(54)]
